@@ -6,6 +6,7 @@ import (
 	"go/types"
 	"sort"
 	"strings"
+	"verif/checker/internal/cfgutil"
 
 	"golang.org/x/tools/go/ssa"
 
@@ -505,79 +506,132 @@ func rulePNilRet(c *engine.Context) *report.Rule {
 func ruleVParamAlways(c *engine.Context) *report.Rule {
 	r := report.NewRule("V-PARAM-ALWAYS", "a one-operand filter query evaluates its operand on every call", 2)
 	p := c.P
-	for fn := range queryComputeFuncs(p) {
-		rt := fn.Signature.Recv().Type()
-		if pt, ok := rt.(*types.Pointer); ok {
-			rt = pt.Elem()
+	nQuery := func(t types.Type) (int, *types.Struct) {
+		if pt, ok := t.(*types.Pointer); ok {
+			t = pt.Elem()
 		}
-		nt, ok := rt.(*types.Named)
+		st, ok := t.Underlying().(*types.Struct)
 		if !ok {
-			continue
+			return 0, nil
 		}
-		st, ok := nt.Underlying().(*types.Struct)
-		if !ok {
-			continue
-		}
-		nq := 0
+		n := 0
 		for i := 0; i < st.NumFields(); i++ {
 			if types.Identical(st.Field(i).Type(), p.Roles.QueryIface) {
-				nq++
+				n++
 			}
 		}
-		if nq != 1 {
+		return n, st
+	}
+	for fn := range queryComputeFuncs(p) {
+		if fn.Signature.Recv() == nil || len(fn.Params) == 0 {
 			continue
 		}
-		r.Instances++
-		// must-pass-through: on every path to a return the operand (a value of the query interface
-		// loaded from the receiver) has been invoked
-		has := map[*ssa.BasicBlock]bool{}
-		ninv := 0
-		for _, b := range fn.Blocks {
-			for _, ins := range b.Instrs {
-				if call, ok := ins.(*ssa.Call); ok && call.Call.IsInvoke() && types.Identical(call.Call.Value.Type(), p.Roles.QueryIface) {
-					has[b] = true
-					ninv++
-				}
+		// the operand slots of the receiver: its own single query field, and the single query
+		// field of every one-operand wrapper struct it points to (the comparison's two parameters)
+		want := map[string]bool{}
+		nOwn, st := nQuery(fn.Signature.Recv().Type())
+		if st == nil {
+			continue
+		}
+		for i := 0; i < st.NumFields(); i++ {
+			if nOwn == 1 && types.Identical(st.Field(i).Type(), p.Roles.QueryIface) {
+				want[fmt.Sprint([]int{i})] = true
 			}
-		}
-		out := map[*ssa.BasicBlock]bool{}
-		for _, b := range fn.Blocks {
-			out[b] = true
-		}
-		for changed := true; changed; {
-			changed = false
-			for _, b := range fn.Blocks {
-				v := len(b.Preds) > 0
-				for _, pb := range b.Preds {
-					if !out[pb] {
-						v = false
+			if _, isPtr := st.Field(i).Type().(*types.Pointer); isPtr {
+				if n2, st2 := nQuery(st.Field(i).Type()); n2 == 1 && st2.NumFields() <= 3 {
+					for j := 0; j < st2.NumFields(); j++ {
+						if types.Identical(st2.Field(j).Type(), p.Roles.QueryIface) {
+							want[fmt.Sprint([]int{i, j})] = true
+						}
 					}
 				}
-				v = v || has[b]
-				if v != out[b] {
-					out[b] = v
-					changed = true
-				}
 			}
 		}
-		ok2 := ninv > 0
-		var at ssa.Instruction
-		for _, b := range fn.Blocks {
-			if ret, isRet := b.Instrs[len(b.Instrs)-1].(*ssa.Return); isRet && b != fn.Recover {
-				if !out[b] {
-					ok2, at = false, ret
+		if len(want) == 0 {
+			continue
+		}
+		pathOf := func(v ssa.Value) []int {
+			var rev []int
+			for i := 0; i < 6; i++ {
+				ld, ok := v.(*ssa.UnOp)
+				if !ok || ld.Op != token.MUL {
+					return nil
+				}
+				fa, ok := ld.X.(*ssa.FieldAddr)
+				if !ok {
+					return nil
+				}
+				rev = append(rev, fa.Field)
+				if fa.X == ssa.Value(fn.Params[0]) {
+					out := make([]int, len(rev))
+					for k := range rev {
+						out[k] = rev[len(rev)-1-k]
+					}
+					return out
+				}
+				v = fa.X
+			}
+			return nil
+		}
+		var slots []string
+		for k := range want {
+			slots = append(slots, k)
+		}
+		sort.Strings(slots)
+		for _, slot := range slots {
+			r.Instances++
+			// must-pass-through: on every path to a return this operand has been invoked
+			has := map[*ssa.BasicBlock]bool{}
+			ninv := 0
+			for _, b := range fn.Blocks {
+				for _, ins := range b.Instrs {
+					if call, ok := ins.(*ssa.Call); ok && call.Call.IsInvoke() && types.Identical(call.Call.Value.Type(), p.Roles.QueryIface) {
+						if fmt.Sprint(pathOf(call.Call.Value)) == slot {
+							has[b] = true
+							ninv++
+						}
+					}
 				}
 			}
-		}
-		r.Oblige(ok2)
-		r.Sample("%s evaluates its operand before every return: %v", load.FuncName(fn), ok2)
-		if !ok2 {
-			pos := p.RelPos(fn.Pos())
-			if at != nil {
-				pos = p.RelPos(at.Pos())
+			out := map[*ssa.BasicBlock]bool{}
+			for _, b := range fn.Blocks {
+				out[b] = true
 			}
-			r.Violation(load.FuncName(fn)+" can return without evaluating its operand", pos,
-				"%s has a path that returns without evaluating its operand: a function inside the operand is then not called for some evaluations of the filter (e.g. on an empty container), while the same operand used as an existence test is", load.FuncName(fn))
+			for changed := true; changed; {
+				changed = false
+				for _, b := range fn.Blocks {
+					v := len(b.Preds) > 0
+					for _, pb := range b.Preds {
+						if !out[pb] {
+							v = false
+						}
+					}
+					v = v || has[b]
+					if v != out[b] {
+						out[b] = v
+						changed = true
+					}
+				}
+			}
+			ok2 := ninv > 0
+			var at ssa.Instruction
+			for _, b := range fn.Blocks {
+				if ret, isRet := b.Instrs[len(b.Instrs)-1].(*ssa.Return); isRet && b != fn.Recover {
+					if !out[b] {
+						ok2, at = false, ret
+					}
+				}
+			}
+			r.Oblige(ok2)
+			r.Sample("%s evaluates its operand (field path %s) before every return: %v", load.FuncName(fn), slot, ok2)
+			if !ok2 {
+				pos := p.RelPos(fn.Pos())
+				if at != nil {
+					pos = p.RelPos(at.Pos())
+				}
+				r.Violation(load.FuncName(fn)+" can return without evaluating its operand", pos,
+					"%s has a path that returns without evaluating its operand (field path %s): a function inside the operand is then not called for some evaluations of the filter (e.g. on an empty container), while the same operand used as an existence test is", load.FuncName(fn), slot)
+			}
 		}
 	}
 	return r
@@ -602,13 +656,21 @@ func ruleNApply(c *engine.Context) *report.Rule {
 			nextField = i
 		}
 	}
-	isNextLoad := func(v ssa.Value, fn *ssa.Function) bool {
+	// a load of the `next` link of a basic node (the receiver itself in the forward-or-emit
+	// helpers, the embedded basic node where such a helper is expanded into a node's own method)
+	nextBase := func(v ssa.Value) ssa.Value {
 		ld, ok := v.(*ssa.UnOp)
 		if !ok || ld.Op != token.MUL {
-			return false
+			return nil
 		}
 		fa, ok := ld.X.(*ssa.FieldAddr)
-		return ok && fa.Field == nextField && len(fn.Params) > 0 && fa.X == ssa.Value(fn.Params[0])
+		if !ok || fa.Field != nextField {
+			return nil
+		}
+		if pt, isP := fa.X.Type().Underlying().(*types.Pointer); !isP || !types.Identical(pt.Elem(), p.Roles.BasicNode) {
+			return nil
+		}
+		return fa.X
 	}
 	emits := findEmitSites(c)
 	byFn := map[*ssa.Function][]*emitSite{}
@@ -621,24 +683,14 @@ func ruleNApply(c *engine.Context) *report.Rule {
 	}
 	sort.Slice(fns, func(i, j int) bool { return load.FuncName(fns[i]) < load.FuncName(fns[j]) })
 	for _, fn := range fns {
-		// the helper's own invocation of the next step
-		var inv *ssa.Call
-		for _, b := range fn.Blocks {
-			for _, ins := range b.Instrs {
-				if call, ok := ins.(*ssa.Call); ok && call.Call.IsInvoke() && call.Call.Method.Name() == p.Roles.RetrieveName && isNextLoad(call.Call.Value, fn) {
-					inv = call
-				}
-			}
+		// the guards `next != nil` of this function: one forward-or-emit region each
+		type region struct {
+			guard      *ssa.If
+			base       ssa.Value
+			nonNilSucc *ssa.BasicBlock
+			nilSucc    *ssa.BasicBlock
 		}
-		if inv == nil {
-			continue
-		}
-		r.Instances++
-		var problems []string
-		var at ssa.Instruction
-		// the guard `next != nil`
-		var guard *ssa.If
-		var nonNilSucc *ssa.BasicBlock
+		var regions []*region
 		for _, b := range fn.Blocks {
 			ifi, ok := b.Instrs[len(b.Instrs)-1].(*ssa.If)
 			if !ok {
@@ -654,44 +706,84 @@ func ruleNApply(c *engine.Context) *report.Rule {
 			} else if isNilConstV(bo.X) {
 				other = bo.Y
 			}
-			if other == nil || !isNextLoad(other, fn) {
+			if other == nil || nextBase(other) == nil {
 				continue
 			}
-			guard = ifi
-			nonNilSucc = b.Succs[0]
+			rg := &region{guard: ifi, base: nextBase(other), nonNilSucc: b.Succs[0], nilSucc: b.Succs[1]}
 			if bo.Op == token.EQL {
-				nonNilSucc = b.Succs[1]
+				rg.nonNilSucc, rg.nilSucc = b.Succs[1], b.Succs[0]
 			}
+			regions = append(regions, rg)
 		}
-		if guard == nil {
-			problems = append(problems, "no test whether a next step exists")
-		} else {
-			// every return reachable from the non-nil edge returns the step's result, and the step is applied at once
-			if inv.Block() != nonNilSucc {
-				problems, at = append(problems, "between finding that a next step exists and applying it, something else can happen (the step is not applied unconditionally)"), inv
+		if len(regions) == 0 {
+			r.Instances++
+			r.Oblige(false)
+			f := r.Violation(load.FuncName(fn)+" does not always apply the next step", p.RelPos(fn.Pos()), "%s emits a selected value without any test whether a next step exists", load.FuncName(fn))
+			engine.Restrict(f, "C01", "C08", "C12", "C13", "C14")
+			continue
+		}
+		var problems []string
+		var at ssa.Instruction
+		for _, rg := range regions {
+			r.Instances++
+			// with a next step present it is applied at once ...
+			var inv *ssa.Call
+			for _, ins := range rg.nonNilSucc.Instrs {
+				if call, ok := ins.(*ssa.Call); ok {
+					if call.Call.IsInvoke() && call.Call.Method.Name() == p.Roles.RetrieveName && nextBase(call.Call.Value) == rg.base {
+						inv = call
+					}
+					break // the first call of the block decides
+				}
 			}
+			if inv == nil || len(rg.nonNilSucc.Preds) != 1 {
+				problems, at = append(problems, "between finding that a next step exists and applying it, something else can happen (the step is not applied unconditionally)"), rg.guard
+				continue
+			}
+			// ... and what it returns is what this region yields
 			for _, b := range fn.Blocks {
-				if !(b == nonNilSucc || nonNilSucc.Dominates(b)) {
+				if !(b == rg.nonNilSucc || rg.nonNilSucc.Dominates(b)) {
 					continue
 				}
 				if ret, isRet := b.Instrs[len(b.Instrs)-1].(*ssa.Return); isRet && len(ret.Results) == 1 && ret.Results[0] != ssa.Value(inv) {
+					// a function with a defer returns through a spilled result variable: what is
+					// stored into it on this side of the guard must be the step's result
+					if spill := loadOfCell(ret.Results[0]); spill != nil {
+						for _, ref := range *spill.Referrers() {
+							if st, isSt := ref.(*ssa.Store); isSt && st.Addr == ssa.Value(spill) && (st.Block() == rg.nonNilSucc || rg.nonNilSucc.Dominates(st.Block())) && st.Val != ssa.Value(inv) {
+								problems, at = append(problems, "with a next step present the helper can return something other than that step's result"), st
+							}
+						}
+						continue
+					}
 					problems, at = append(problems, "with a next step present the helper can return something other than that step's result"), ret
 				}
 			}
-			// a return that skips the step: any Return not dominated by the guard's block … is before the test (lookup miss etc.): fine
-			// emission only where no next step exists
-			for _, es := range byFn[fn] {
-				nilKnown := false
-				for _, dc := range dominatingConds(es.block) {
-					if dc.at == guard {
-						nilKnown = true
-					}
-				}
-				if !nilKnown || es.block == nonNilSucc || nonNilSucc.Dominates(es.block) {
-					problems, at = append(problems, "a value is emitted on a path where a next step may exist (the step is never applied to it)"), es.call
+			used := false
+			for _, ref := range *inv.Referrers() {
+				if _, isDbg := ref.(*ssa.DebugRef); !isDbg {
+					used = true
 				}
 			}
-			// nothing between the function entry and the guard may return success (nil) silently
+			if !used {
+				problems, at = append(problems, "the result of the next step is dropped"), inv
+			}
+		}
+		// emission only where no next step exists
+		for _, es := range byFn[fn] {
+			nilKnown := false
+			for _, rg := range regions {
+				if es.block == rg.nilSucc && len(rg.nilSucc.Preds) == 1 || rg.nilSucc.Dominates(es.block) && len(rg.nilSucc.Preds) == 1 {
+					nilKnown = true
+				}
+			}
+			if !nilKnown {
+				problems, at = append(problems, "a value is emitted on a path where a next step may exist (the step is never applied to it)"), es.call
+			}
+		}
+		// a pure helper (one region, no loop): nothing before the test may report success silently
+		if len(regions) == 1 && len(cfgutil.Loops(fn)) == 0 {
+			guard := regions[0].guard
 			for _, b := range fn.Blocks {
 				if b == guard.Block() || guard.Block().Dominates(b) {
 					continue
@@ -705,7 +797,7 @@ func ruleNApply(c *engine.Context) *report.Rule {
 		}
 		problems = uniqSorted(problems)
 		r.Oblige(len(problems) == 0)
-		r.Sample("%s: next step applied whenever present, emission only at the end of the chain: %v", load.FuncName(fn), len(problems) == 0)
+		r.Sample("%s: next step applied whenever present (%d region(s)), emission only at the end of the chain: %v", load.FuncName(fn), len(regions), len(problems) == 0)
 		if len(problems) > 0 {
 			pos := p.RelPos(fn.Pos())
 			if at != nil {
@@ -965,4 +1057,38 @@ func ruleWQuotes(c *engine.Context) *report.Rule {
 		r.InfraFail("anchor unresolved: no quoted alternatives found in the grammar")
 	}
 	return r
+}
+
+// nextGuardBase: cond compares the `next` link of a basic node with nil; returns the node value.
+func nextGuardBase(p *load.Program, cond ssa.Value) ssa.Value {
+	bst, ok := p.Roles.BasicNode.Underlying().(*types.Struct)
+	if !ok {
+		return nil
+	}
+	bo, ok := cond.(*ssa.BinOp)
+	if !ok || (bo.Op != token.NEQ && bo.Op != token.EQL) {
+		return nil
+	}
+	var other ssa.Value
+	if isNilConstV(bo.Y) {
+		other = bo.X
+	} else if isNilConstV(bo.X) {
+		other = bo.Y
+	}
+	ld, ok := other.(*ssa.UnOp)
+	if !ok || ld.Op != token.MUL {
+		return nil
+	}
+	fa, ok := ld.X.(*ssa.FieldAddr)
+	if !ok {
+		return nil
+	}
+	pt, isP := fa.X.Type().Underlying().(*types.Pointer)
+	if !isP || !types.Identical(pt.Elem(), p.Roles.BasicNode) {
+		return nil
+	}
+	if fa.Field >= bst.NumFields() || !types.Identical(bst.Field(fa.Field).Type(), p.Roles.NodeIface) {
+		return nil
+	}
+	return fa.X
 }
